@@ -558,4 +558,50 @@ theorem iheat_nonneg (k : ℕ) (hk : k < m.nq) (hr0 : ∀ i, 0 ≤ at' m.r i) (h
     exact div_nonneg (mul_nonneg (by norm_num) h1) h2
   · simp
 
+/-- a positive integrand at the second node on a grid that increases there: the trapezoid integral over `mm ≥ 2` nodes is positive -/
+theorem trapzA_pos (yv x : Array ℝ) (mm : ℕ) (hm : 2 ≤ mm) (hy : ∀ i, 0 ≤ at' yv i) (hy1 : 0 < at' yv 1)
+    (hx : ∀ i, i + 1 < mm → at' x i ≤ at' x (i + 1)) (hx01 : at' x 0 < at' x 1) : 0 < trapzA yv x mm := by
+  rw [trapzA_eq_sum]
+  have hterm : ∀ i ∈ Finset.range (mm - 1), 0 ≤ (at' x (i + 1) - at' x i) * (at' yv (i + 1) + at' yv i) / 2 := by
+    intro i hi
+    have hi' : i + 1 < mm := by have := Finset.mem_range.mp hi; omega
+    have := hx i hi'; have := hy i; have := hy (i + 1)
+    apply div_nonneg _ (by norm_num); apply mul_nonneg <;> linarith
+  have h0 : (0 : ℕ) ∈ Finset.range (mm - 1) := by simp; omega
+  have hfirst : 0 < (at' x (0 + 1) - at' x 0) * (at' yv (0 + 1) + at' yv 0) / 2 := by
+    have := hy 0
+    apply div_pos _ (by norm_num)
+    apply mul_pos <;> [(simp only [zero_add]; linarith); (simp only [zero_add]; linarith)]
+  exact lt_of_lt_of_le hfirst (Finset.single_le_sum hterm h0)
+
+/-- **the radial integrals the kernel divides by are positive** — `∫₀^{r_dt} r s dr` (denominator of the on-axis density, the ion-cloud
+radius and the overlap factor) and `∫₀^{r_e} r s dr` (denominator of the ionisation heating) — for every state, potential and temperature,
+on every grid that is non-negative, non-decreasing, strictly increasing at its first step, with the beam edge at node `ix ≥ 1`: the
+Boltzmann shape `exp(−q(φ−φ_min)/kT)` is strictly positive, whatever its argument. (Over ℝ; in binary64 the shape can underflow to 0 when
+`kT < q Δφ₁/500`, the limit the property itself names.) -/
+theorem overlap_denominators_pos (k : ℕ) (hr0 : ∀ i, 0 ≤ at' m.r i)
+    (hmono : ∀ i, i + 1 < m.r.size → at' m.r i ≤ at' m.r (i + 1)) (h01 : at' m.r 0 < at' m.r 1)
+    (hix : 1 ≤ m.ix) (hixs : m.ix + 1 ≤ m.r.size) :
+    let S : Array ℝ := Array.ofFn (n := m.r.size) fun g' =>
+      Real.exp (-(at' m.q k) * (at' (stage m y).phi g'.val - minA (stage m y).phi) / at' (stage m y).kT k)
+    let Y : Array ℝ := Array.ofFn (n := m.r.size) fun g => at' S g.val * at' m.r g.val
+    0 < trapzA Y m.r (m.ix + 1) ∧ 0 < trapzA Y m.r m.r.size := by
+  intro S Y
+  have hsz : 2 ≤ m.r.size := by omega
+  have hSnn : ∀ i, 0 ≤ at' S i := by
+    intro i
+    by_cases h : i < m.r.size
+    · rw [at'_ofFn _ i h]; exact (Real.exp_pos _).le
+    · rw [at'_ofFn_ge _ i (by omega)]
+  have hy : ∀ i, 0 ≤ at' Y i := by
+    intro i
+    by_cases h : i < m.r.size
+    · rw [at'_ofFn _ i h]; exact mul_nonneg (hSnn i) (hr0 i)
+    · rw [at'_ofFn_ge _ i (by omega)]
+  have hy1 : 0 < at' Y 1 := by
+    rw [at'_ofFn _ 1 (by omega), at'_ofFn _ 1 (by omega)]
+    exact mul_pos (Real.exp_pos _) (lt_of_le_of_lt (hr0 0) h01)
+  exact ⟨trapzA_pos Y m.r (m.ix + 1) (by omega) hy hy1 (fun i hi => hmono i (by omega)) h01,
+         trapzA_pos Y m.r m.r.size hsz hy hy1 hmono h01⟩
+
 end C05
